@@ -5,7 +5,7 @@ use crate::desc::*;
 use crate::doc::{Doc, Path, Step};
 use crate::rng::Rng;
 
-const WORDS: [&str; 8] = ["a", "b", "bork", "jorts", "doggo", "x1", "Zed", "mid_dle"];
+const WORDS: [&str; 10] = ["a", "b", "bork", "jorts", "doggo", "x1", "Zed", "mid_dle", "", "say \"hi\""];
 
 #[derive(Clone, Debug, Default)]
 pub struct FaultCounts {
@@ -295,8 +295,13 @@ fn gen_members(
             continue;
         }
         let present = if f.default != Dflt::No { cfg.depth > 0 && rng.chance(3, 5) } else { true };
+        let key = f.key(rename_all);
+        // two fields resolving to the same key: the payload still has one entry for it
+        if m.iter().any(|(k, _)| *k == key) {
+            continue;
+        }
         if present {
-            m.push((f.key(rename_all), gen_valid(cat, f.src_ty(), rng, cfg)));
+            m.push((key, gen_valid(cat, f.src_ty(), rng, cfg)));
         }
     }
     m
@@ -549,9 +554,9 @@ impl<'a> Mutator<'a> {
                     if self.cfg.badkey && self.hit(rng) {
                         let bad = match k {
                             KeyTy::Str => None,
-                            KeyTy::U8 => Some(rng.pick(&["abc", "256", "-1", "", "1.5"]).to_string()),
-                            KeyTy::I32 => Some(rng.pick(&["x", "99999999999", "", "1e3"]).to_string()),
-                            KeyTy::Char => Some(rng.pick(&["ab", "", "abc"]).to_string()),
+                            KeyTy::U8 => Some(rng.pick(&["abc", "256", "-1", "", "1.5", "say \"7\"", "back\\slash", "7\n", "cafe\u{301}"]).to_string()),
+                            KeyTy::I32 => Some(rng.pick(&["x", "99999999999", "", "1e3", "\"1\"", "1\t"]).to_string()),
+                            KeyTy::Char => Some(rng.pick(&["ab", "", "abc", "\"\"", "\\n"]).to_string()),
                         };
                         if let Some(b) = bad {
                             if members.iter().all(|(k2, _)| *k2 != b) {
